@@ -23,6 +23,9 @@ type Program struct {
 	Procs     []*Proc     `json:"procs,omitempty"`
 	Scanners  []*Scanner  `json:"scanners,omitempty"`
 	Sources   []*Source   `json:"sources,omitempty"`
+	// Warmup: before the container under observation is built, another container is started
+	// from the very same configuration option values (option values are reused across containers).
+	Warmup bool `json:"warmup,omitempty"`
 	// Twin: id of the program this one is an embedded re-arrangement of (C11).
 	Twin string `json:"twin,omitempty"`
 	// Notes for humans (corpus name etc).
@@ -135,6 +138,10 @@ type Instance struct {
 	// inside its Init / AfterPropertiesSet callback - a dependency cycle can be closed during
 	// initialization, not only during population.
 	InitLookups []string `json:"initLookups,omitempty"`
+	// Contributed: the instance is not registered with the container; a definition-registry
+	// post-processor contributes its definition (DefinitionRegistry.RegisterMeta) during the
+	// scanning phase. Only for types without points / configuration fields.
+	Contributed bool `json:"contributed,omitempty"`
 }
 
 // Proc is a user post-processor instance (one of nine static harness types).
@@ -183,6 +190,9 @@ type Source struct {
 	Doc        map[string]any `json:"doc,omitempty"`
 	// Fault: "", "error", "empty", "garbage", "missing", "isdir"
 	Fault string `json:"fault,omitempty"`
+	// Group: consecutive sources with the same non-zero Group and the same Via are passed to
+	// ONE option call (e.g. SetConfigLoader(l1, l2)).
+	Group int `json:"group,omitempty"`
 	// Late: the source is added (Configure.AddLoaders) after Run and the configuration is
 	// initialised a second time (reload).
 	Late bool `json:"late,omitempty"`
